@@ -78,6 +78,12 @@ psf_get_chunk_iterator (SF_PRIVATE * psf, const char * marker_str)
 		psf->iterator->id_size = (unsigned) marker_len ;
 		psf->iterator->hash = hash ;
 		}
+	else
+	{	/* The iterator is reused: forget the id of an earlier, unfinished search. */
+		memset (psf->iterator->id, 0, sizeof (psf->iterator->id)) ;
+		psf->iterator->id_size = 0 ;
+		psf->iterator->hash = 0 ;
+		} ;
 
 	psf->iterator->current = idx ;
 
